@@ -27,11 +27,12 @@ META = dict(
 
 PRELUDE = ("From Coq Require Import ZArith List Bool.\nFrom Darr Require Import Base Meta CheckArray CheckMeta.\n"
            "Import ListNotations.\nOpen Scope Z_scope.\n")
-KEYS = ['a', 'k2', 'ü中']
+KEYS = ['a', 'k2', 'ü中', 'half\ud83d']
 
 VALUES = [
     ['int', 5], ['int', 0], ['str', ''], ['int', -2 ** 70], ['float', 2.5], ['float', -0.0], ['nan'], ['inf', 1], ['inf', -1],
     ['str', 'plain'], ['str', 'zü中\U0001f600'], ['str', 'tab\tnl\n\x01"\\'], ['bool', 1], ['bool', 0],
+    ['str', 'track\udcff.wav'],         # a lone surrogate (os.fsdecode of a Latin-1 file name): legal in str and in JSON
     ['none'], ['list', [['int', 1], ['str', 'x'], ['list', [['none']]]]],
     ['dict', [['p', ['int', 1]], ['q', ['list', [['float', 1.5]]]]]], ['tuple', [['int', 1], ['int', 2]]],
     ['npint', 'int16', 7], ['npint', 'uint64', 2 ** 63], ['npfloat', 'float32', 0.5], ['npfloat', 'float16', 1.5],
